@@ -83,6 +83,11 @@ Ops(S) ==
       UNION {{[name |-> "add_tree", p |-> pp[1], deep |-> pp[2], pos |-> pos] :
                  pos \in IF Room(S) >= (IF pp[2] THEN Src.n ELSE Len(Src.top)) THEN Positions(S, pp[1]) ELSE {}} :
              pp \in Parents(S) \X BOOLEAN}
+      \cup (IF "badpos" \in OpNames THEN     \* a whole tree at an int position beyond the end of the child list
+              UNION {{[name |-> "add_tree", p |-> pp[1], deep |-> pp[2], pos |-> [t |-> "idx", v |-> Len(KidsOf(S, pp[1])) + j]] :
+                         j \in IF Room(S) >= (IF pp[2] THEN Src.n ELSE Len(Src.top)) THEN 1..2 ELSE {}} :
+                     pp \in Parents(S) \X BOOLEAN}
+            ELSE {})
       \cup {[name |-> "tree_copy_to", p |-> p, deep |-> dp] :
           p \in Parents(S), dp \in {b \in BOOLEAN : Room(S) >= (IF b THEN Src.n ELSE Len(Src.top))}}
       \cup UNION {{[name |-> "copy_children_to", p |-> pd[1], src |-> "T", x |-> x, deep |-> pd[2]] :
